@@ -798,9 +798,20 @@ func (p *Parser) parseForEach() ast.Expression {
 		return nil
 	}
 
+	// Now "{"
+	if !p.expectPeek(token.LBRACE) {
+		msg := fmt.Sprintf("expected { but got %s around %s", p.curToken.Literal, p.curToken.Position())
+		p.errors = append(p.errors, msg)
+		return nil
+	}
+
 	// parse the block
-	p.nextToken()
 	expression.Body = p.parseBlockStatement()
+	if expression.Body == nil {
+		msg := fmt.Sprintf("unexpected nil expression around %s", p.curToken.Position())
+		p.errors = append(p.errors, msg)
+		return nil
+	}
 
 	return expression
 }
